@@ -40,3 +40,48 @@ Proof.
     repeat split; [right; left; reflexivity | apply not_within; reflexivity].
 Qed.
 Print Assumptions C18_manifest_refuted.
+
+(* F18d: before its repair the deployment checked the manifest with Manifest.validate only; a manifest that
+   makes conf a link, or the package file inside a copied conf a link, passes it, and the deployment's own
+   write of the package file lands in the folder (on the file) the link points to. *)
+Theorem C18_conf_refuted :
+  (exists tgt man p, validate man = true /\ In p (deploy_self false tgt man) /\ ~ within tgt p /\
+                     man = [("conf", "/p/myconf:link")]) /\
+  (exists tgt man p, validate man = true /\ In p (deploy_self false tgt man) /\ ~ within tgt p /\
+                     man = [("conf", "/p/myconf:copy"); ("conf/flowir_package.yaml", "/p/src/f.txt:link")]).
+Proof.
+  split.
+  - exists ["loc"; "inst"], [("conf", "/p/myconf:link")], ["p"; "myconf"; "flowir_package.yaml"].
+    repeat split; [left; reflexivity | apply not_within; reflexivity].
+  - exists ["loc"; "inst"], [("conf", "/p/myconf:copy"); ("conf/flowir_package.yaml", "/p/src/f.txt:link")],
+           ["p"; "src"; "f.txt"].
+    repeat split; [left; reflexivity | apply not_within; reflexivity].
+Qed.
+Print Assumptions C18_conf_refuted.
+
+(* F18e: before its repair the check resolved the pre-existing links with os.path.realpath BEFORE the extraction
+   and accepted what resolved to a path inside the destination.  With the links a -> l (l not existing yet) and
+   sub -> /out in the working directory, the archive {l -> sub, a/x.txt} passes, and a/x.txt is created at
+   /out/x.txt: the archive itself changes where the existing link leads. *)
+Theorem C18_prelinks_refuted :
+  exists pre d ms p, gooddir d = true /\ real_dir pre d = true /\ tar_check_pre_old pre d ms = true /\
+                     In p (extract_pre pre d ms) /\ ~ within d p /\
+                     pre = [(["t"; "work"; "a"], ["t"; "work"; "l"]); (["t"; "work"; "sub"], ["out"])] /\
+                     ms = [("l", KSym "sub"); ("a/x.txt", KFile)].
+Proof.
+  exists [(["t"; "work"; "a"], ["t"; "work"; "l"]); (["t"; "work"; "sub"], ["out"])], ["t"; "work"],
+         [("l", KSym "sub"); ("a/x.txt", KFile)], ["out"; "x.txt"].
+  repeat split; [right; left; reflexivity | apply not_within; reflexivity].
+Qed.
+Print Assumptions C18_prelinks_refuted.
+
+(* the hypothesis [real_dir] of C18_prelinks_confined is necessary: when the destination itself is reached
+   through a link (d is not what os.path.realpath returns) everything is created elsewhere *)
+Theorem C18_real_dir_needed_refuted :
+  exists pre d ms p, gooddir d = true /\ tar_check_pre pre d ms = true /\ In p (stage_extract_pre pre d ms) /\
+                     ~ within d p /\ pre = [(["t"], ["out"])] /\ ms = [("x", KFile)].
+Proof.
+  exists [(["t"], ["out"])], ["t"; "work"], [("x", KFile)], ["out"; "work"; "x"].
+  repeat split; [left; reflexivity | apply not_within; reflexivity].
+Qed.
+Print Assumptions C18_real_dir_needed_refuted.
